@@ -589,6 +589,12 @@ def run_check(P, tier, seed, replay=None):
             extra = P.extra_stage(tier, seed, work) or {}
         except Exception as ex:   # noqa
             extra = {'violations': [{'label': 'extra-stage-error', 'text': str(ex)[-500:], 'found_input': False}]}
+        if corr['evaluations'] == 0 and extra.get('runs'):
+            # properties without an extracted model: the stress / forced-schedule runs are what was explored
+            corr['evaluations'] = int(extra['runs'])
+            cfgs = list(dict.fromkeys(extra.get('configs', [])))
+            corr['distinct_nontrivial'] = len(cfgs)
+            corr['samples'] = [{'run': x} for x in cfgs[:5]]
         for v in extra.get('violations', []):
             lab = v.get('label', 'extra')
             if lab in known_open:
